@@ -37,6 +37,14 @@ def ground_term(rng, depth):
     return ('f', rng.choice('gh'), tuple(ground_term(rng, depth - 1) for _ in range(rng.randrange(1, 3))))
 
 
+def no_floats(t):
+    if t[0] == 'i' and isinstance(t[1], float):
+        return ('i', int(t[1]))
+    if t[0] == 'f':
+        return ('f', t[1], tuple(no_floats(a) for a in t[2]))
+    return t
+
+
 def decompose(rng, t, counter, eqs, p_split=0.6):
     """returns a term equal to t after solving eqs; subterms are cut out into fresh
     variables with probability p_split"""
@@ -144,7 +152,7 @@ def gen(seed, tier):
             ops.insert(pos, ['SIDE', rng.random() < 0.3] if rng.random() < 0.5 else ['SIDESTEP', rng.randrange(4), rng.choice(('step', 'step', 'close', 'drop'))])
     program = None
     if rng.random() < 0.3:
-        target = ground_term(rng, rng.choice((1, 2, 3)))
+        target = no_floats(ground_term(rng, rng.choice((1, 2, 3))))       # (the Prolog subset has no float literals)
         if target[0] != 'f':
             target = ('f', 'g', (target,))
         counter = [0]
